@@ -93,6 +93,7 @@ def fixed_codepoints():
     cps = set(ord(c) for s in gen.UNI_REPS + gen.SURROGATES for c in s)
     cps |= set(range(0x80, 0x110000, 0x110000 // 300))
     cps |= {0x80, 0x7FF, 0x800, 0xFFFF, 0x10000, 0x10FFFF, 0xD7FF, 0xE000, 0xFFFD, 0xFFFE}
+    cps |= set(range(0x80, 0x102))  # all of Latin-1 (the 1-byte string kind of PEP 393) and the first 2-byte characters
     return sorted(cps)
 
 
